@@ -188,16 +188,14 @@ RejectedNoEffect(cfg, s, e) ==
 EntryNames(fs, d) == {n \in DOMAIN fs.ents[d] : fs.ents[d][n] # "DIR" /\ FirstChar(n) # "."}
 SubDirs(fs, d) == {n \in DOMAIN fs.ents[d] : fs.ents[d][n] = "DIR"}
 InoAt(fs, d, n) == fs.inos[fs.ents[d][n]]
-PruneOK(pre, post, d, cap) ==
-    LET names == EntryNames(pre, d)
-        left == EntryNames(post, d)
-        gone == names \ left
-        moved == {n \in names \cap left : InoAt(post, d, n).mt # InoAt(pre, d, n).mt}
+\* The checks, given which entries count as evicted (`gone`), which were really re-stamped (`moved`) and the candidate orders of the
+\* re-queued entries (`movedSeqs`: one of them must be the planner's)
+PruneChecks(pre, post, d, cap, names, gone, moved, movedSeqs) ==
+    LET left == EntryNames(post, d)
         ents == SetToSeq({[id |-> n, rank |-> InoAt(pre, d, n).mt, acc |-> TLe(InoAt(pre, d, n).mt, InoAt(pre, d, n).at)] : n \in names})
-        movedSeq == SortSeq(SetToSeq(moved), LAMBDA a, b : TLt(InoAt(post, d, a).mt, InoAt(post, d, b).mt))
     IN /\ left \subseteq names
        /\ SubDirs(pre, d) = SubDirs(post, d)
-       /\ PlanOK(ents, cap, SetToSeq(gone), movedSeq)
+       /\ \E ms \in movedSeqs : PlanOK(ents, cap, SetToSeq(gone), ms)
        \* reprieved entries re-enter the queue one after the other: their new queue positions are pairwise distinct
        /\ \A a, b \in moved : a # b => InoAt(post, d, a).mt # InoAt(post, d, b).mt
        /\ \A n \in moved :
@@ -206,6 +204,24 @@ PruneOK(pre, post, d, cap) ==
             /\ \A m \in names : TLt(InoAt(pre, d, m).mt, InoAt(post, d, n).mt)                      \* back of the queue
             /\ InoAt(post, d, n).c = InoAt(pre, d, n).c /\ InoAt(post, d, n).mode = InoAt(pre, d, n).mode
        /\ \A n \in (names \cap left) \ moved : post.ents[d][n] = pre.ents[d][n] /\ InoAt(post, d, n) = InoAt(pre, d, n)
+MovedIn(pre, post, d) == {n \in EntryNames(pre, d) \cap EntryNames(post, d) : InoAt(post, d, n).mt # InoAt(pre, d, n).mt}
+MovedSeqIn(pre, post, d) == SortSeq(SetToSeq(MovedIn(pre, post, d)), LAMBDA a, b : TLt(InoAt(post, d, a).mt, InoAt(post, d, b).mt))
+PruneOK(pre, post, d, cap) ==
+    LET names == EntryNames(pre, d) IN
+    PruneChecks(pre, post, d, cap, names, names \ EntryNames(post, d), MovedIn(pre, post, d), {MovedSeqIn(pre, post, d)})
+\* The same when an outside party removed entry v of d while the maintenance ran ("things do disappear from caches"): the outcome is the
+\* planner's on the directory as it was listed -- without v (not listed yet), or with v evicted, or with v left alone (and removed
+\* afterwards), or with v reprieved but gone before its re-stamp (all OTHER reprieved entries still move to the back).
+FsWithout(f, d, v) == [f EXCEPT !.ents[d] = [n \in (DOMAIN @) \ {v} |-> @[n]]]
+FsWith(f, d, v, src) == [f EXCEPT !.ents[d] = (v :> src.ents[d][v]) @@ @, !.inos = (src.ents[d][v] :> src.inos[src.ents[d][v]]) @@ @]
+PruneOKV(pre, post, d, cap, v) ==
+    IF v \notin EntryNames(pre, d) \/ v \in EntryNames(post, d) THEN PruneOK(pre, post, d, cap)
+    ELSE LET names == EntryNames(pre, d) ms == MovedSeqIn(pre, post, d) IN
+         \/ PruneOK(FsWithout(pre, d, v), post, d, cap)
+         \/ PruneOK(pre, post, d, cap)
+         \/ PruneOK(pre, FsWith(post, d, v, pre), d, cap)
+         \/ PruneChecks(pre, post, d, cap, names, (names \ EntryNames(post, d)) \ {v}, MovedIn(pre, post, d),
+                        {InsertAt(ms, i, v) : i \in 1..Len(ms) + 1})
 
 \* nothing outside the configured cache directories (and the application's scratch dirs) changes
 UnderSomeRoot(cfg, d) == \E r \in Roots(cfg) : Under(d, r.id)
